@@ -130,15 +130,35 @@ def _wt(d):
     raise ValueError(d)
 
 
+def param_indices(fl):
+    """index of the Python parameter each wire field belongs to (flattened struct fields share one)"""
+    pidx, k, prev = [], 0, None
+    for (n, d, o, ev) in fl:
+        base = n.split(".")[0]
+        if prev == base:
+            pidx.append(k - 1)
+        else:
+            pidx.append(k)
+            k += 1
+            prev = base
+    return pidx
+
+
+def status_index(fl):
+    return next((i for i, f in enumerate(fl) if f[0] == "StatusCode"), None)
+
+
 def lean_table(rows, defname, doc):
     out = ["/-- %s -/" % doc, "def %s : List CmdDesc := [" % defname]
     items = []
     for _, qn, hdr, blocking, fl in rows:
         fs = ",\n      ".join(
-            "{ name := \"%s\", wt := %s, optional := %s, enumVals := [%s] }"
-            % (n, _wt(d), "true" if o else "false", ", ".join(str(v) for v in ev)) for (n, d, o, ev) in fl)
-        items.append("  { name := \"%s\", header := %d, blocking := %s, fields := [\n      %s] }"
-                     % (qn, hdr, "true" if blocking else "false", fs))
+            "{ name := \"%s\", wt := %s, optional := %s, param := %d, enumVals := [%s] }"
+            % (n, _wt(d), "true" if o else "false", pi, ", ".join(str(v) for v in ev))
+            for (n, d, o, ev), pi in zip(fl, param_indices(fl)))
+        si = status_index(fl)
+        items.append("  { name := \"%s\", header := %d, blocking := %s, statusIdx := %s, fields := [\n      %s] }"
+                     % (qn, hdr, "true" if blocking else "false", "none" if si is None else "some %d" % si, fs))
     out.append(",\n".join(items))
     out.append("]")
     return "\n".join(out)
